@@ -425,7 +425,10 @@ let injected (st: hstate ref) (op: string) (snap: string) =
        if impl_pairs <> ms && impl_pairs <> post then mismatch "EVSTATE" ~impl:snap ~model:"state before the operation")
   | HKey (is_list, m, b) ->
     let (o, time) = kop_of_toks toks in
-    let t = (match time with Some t -> t | None -> 0) in
+    let t = (match toks, time with
+      | ["V"; t], _ -> int_of_string t      (* export works on a copy; the view is taken at its time *)
+      | _, Some t -> t
+      | _, None -> 0) in
     let b2 = ref !b in
     ignore (spec_key b2 o);
     let pre = live_view t !b and post = live_view t !b2 in
@@ -584,8 +587,8 @@ let process_op_line (st: hstate ref) (line: string) ~(terminated: bool) =
           let (mout, mcalls, mcap) =
             (match !m with
              | KT s ->
-               (* an operation on a copy: Vec::clone gives the free list exactly its length as capacity *)
-               let s = if forked then { s with kpl = { s.kpl with ucap = n_of_int (List.length s.kpl.unused) } } else s in
+               (* an operation on a copy: the copy hook keeps the capacities, so the model state is simply reused *)
+               ignore forked;
                let ((s', out), evs) = get (k_step s o) in
                m := KT s';
                let calls = List.filter_map (fun ((kind, e), _) -> match kind with EvCmp -> Some (Printf.sprintf "%d:%d" (int_of_z e.kk) (int_of_z e.kexp)) | EvExp -> None) evs in
